@@ -12,7 +12,17 @@ import (
 
 // C04Convert converts the manager to watching-only in a committed transaction
 // and moves the model along.
-func (m *Machine) C04Convert() {
+func (m *Machine) C04Convert(neuterFirst bool) {
+	if neuterFirst {
+		// the root key may have been removed earlier (NeuterRootKey, or a
+		// database migrated from a version that never stored it)
+		err, committed := m.Tx(Commit, func(ns walletdb.ReadWriteBucket) error { return m.Mgr.NeuterRootKey(ns) })
+		m.Case.Logf("neuter-root-key -> %v", err)
+		if err != nil || !committed {
+			m.Violation("NeuterRootKey failed: %v", err)
+		}
+		m.N["root-key-neutered"]++
+	}
 	err, committed := m.Tx(Commit, func(ns walletdb.ReadWriteBucket) error { return m.Mgr.ConvertToWatchingOnly(ns) })
 	m.Case.Logf("convert-to-watching-only (was locked=%v) -> %v", m.Locked, err)
 	if err != nil || !committed {
